@@ -52,6 +52,8 @@ InDomain(a, x) == IsDef(x) /\ x.n # 0 /\
 Ci(v) == [op |-> "ci", name |-> v]
 Cn(n, d) == [op |-> "cn", n |-> n, d |-> d]
 \* the same number written another way: "upperE" 3E0, "lowerE" 3e0, "plusExp" 3e+0, "enot" <cn type="e-notation">3<sep/>0</cn>, "dot" 3.
+\* form "comment": a comment in front of the number / the name (<cn ...><!-- c -->3</cn>, <ci><!-- c -->a</ci>)
+CiC(name) == [op |-> "ci", name |-> name, form |-> "comment"]
 CnF(n, d, form) == [op |-> "cn", n |-> n, d |-> d, form |-> form]
 N(op, args) == [op |-> op, args |-> args]
 Pw(pieces, other) == [op |-> "piecewise", pieces |-> pieces, otherwise |-> other]       \* pieces: <<[val, cond]>>; otherwise: tree or Cn(0,0) for "absent"
